@@ -44,6 +44,7 @@ type checkRun struct {
 	start    time.Time
 	extraObl []*Obligation
 	notes    []string
+	nLemmas  int
 }
 
 func clauseHasTag(c *Clause, prop string) bool {
@@ -247,6 +248,32 @@ func runCheck(repo, verifDir, prop, tier string) int {
 	if tier == "thorough" {
 		timeouts = []int{60, 60, 60}
 	}
+	// lemmas tagged with this property: obligations over the specification vocabulary alone
+	for _, lm := range e.specs.lemmas {
+		has := false
+		for _, t := range lm.Tags {
+			if t == prop {
+				has = true
+			}
+		}
+		if !has {
+			continue
+		}
+		vc := e.newVC("lemma "+lm.Name, cr.slice, false)
+		vc.declare("alloc~0", sortInt)
+		vc.entry = &State{heaps: map[string]string{}, ghosts: map[string]string{}, alloc: "alloc~0"}
+		var pkg *ssa.Package
+		for _, sp := range e.ssaPkgs {
+			if sp != nil && sp.Pkg.Path() == lm.Pkg {
+				pkg = sp
+			}
+		}
+		te := vc.newTEnv(vc.entry.clone(), vc.entry, pkg)
+		vc.oblige("lemma", "lemma:"+lm.Name, lm.Src, "lemma "+lm.Text, "true", te.formula(lm.E), lm.Tags)
+		vc.discharge(SolveOpts{Dir: qdir, Timeouts: timeouts, Parallel: 16, Seed: seed}, cr.tally)
+		cr.vcs = append(cr.vcs, vc)
+		cr.nLemmas++
+	}
 	for _, t := range cr.targets {
 		ct := t.ct
 		vc := e.verifyFunc(t.fn, ct, cr.slice, cr.safety, nil)
@@ -399,7 +426,7 @@ func (cr *checkRun) report() int {
 		fmt.Printf("FAILED %s %s [%s] %s\n        %s\n", o.Kind, o.Name, o.Status, o.Pos, o.Clause)
 		fmt.Printf("VIOLATION property=%s replay=%s no-failing-input-found\n", cr.prop, path)
 	}
-	if len(all) == 0 || len(cr.targets) == 0 && len(cr.extraObl) == 0 {
+	if len(all) == 0 || len(cr.targets) == 0 && len(cr.extraObl) == 0 && cr.nLemmas == 0 {
 		o := &Obligation{Name: cr.prop + "#no-obligations", Kind: "vacuity", Status: "failed", Clause: "the check generated no obligations (contracts missing or stale)"}
 		path := cr.writeReplay(o)
 		fmt.Printf("VIOLATION property=%s replay=%s no-failing-input-found\n", cr.prop, path)
